@@ -1669,7 +1669,76 @@ def dec(j):
 PLAN_OPTS = ["req", "value", "nodefault"]
 
 
+def same_shape_classes_suite(ctx: Ctx, n: int):
+    """"the constructor is called": several DIFFERENT model classes of identical name and structure in ONE retort (classes made by a
+    factory function, functional NamedTuple / TypedDict, a re-defined class) whose defaults are look-alikes (1 / True / 1.0 /
+    Decimal('1') / an IntEnum member): every load builds an instance of the REQUESTED class through its own constructor and an
+    omitted field holds that class's own default"""
+    import collections
+    import decimal
+    import typing
+
+    from adaptix import Retort
+
+    class Lvl(enum.IntEnum):
+        ONE = 1
+    lookalikes = [1, True, 1.0, decimal.Decimal("1"), Lvl.ONE, 0, False, "", None, (1, 2), (1.0, 2.0), (True, 2)]
+    rng = ctx.rng
+
+    def make(kind, dflt, registry):
+        if kind == "namedtuple":
+            return collections.namedtuple("Same", ["r", "x"], defaults=[dflt])
+        if kind == "typing-namedtuple":
+            return typing.NamedTuple("Same", [("r", int), ("x", typing.Any)])
+        if kind == "class":
+            class Same:
+                def __init__(self, r: int, x: typing.Any = dflt):
+                    registry.append(self)
+                    self.r, self.x = r, x
+            return Same
+        if kind == "typeddict":
+            return typing.TypedDict("Same", {"r": int, "x": typing.NotRequired[typing.Any]})
+        import attrs
+        return attrs.make_class("Same", {"r": attrs.field(type=int), "x": attrs.field(type=typing.Any, default=dflt)})
+    for i in range(n):
+        kind = rng.choice(["namedtuple", "class", "attrs", "typeddict", "typing-namedtuple"])
+        k = rng.randint(2, 3)
+        dflts = rng.sample(lookalikes, k)
+        retort = Retort()
+        regs = [[] for _ in range(k)]
+        classes = [make(kind, d, regs[j]) for j, d in enumerate(dflts)]
+        order = list(range(k)) + [rng.randrange(k) for _ in range(2)]
+        case = {"suite": "same-shape-classes", "kind": kind, "defaults": [repr(d) for d in dflts], "order": order}
+        ctx.note_case(case, nontrivial=True, kind=f"same-shape-classes:{kind}")
+        for step, j in enumerate(order):
+            cls = classes[j]
+            before = len(regs[j])
+            try:
+                obj = retort.load({"r": 1}, cls)
+            except Exception as e:  # noqa: BLE001
+                ctx.dist[f"same-shape-classes:{kind}:raises-{type(e).__name__}"] += 1
+                break
+            if kind == "typeddict":
+                if "x" in obj:
+                    ctx.fail("call:foreign-constructor", f"TypedDict twin #{j}: omitted key appears in {obj!r}", case)
+                    break
+                continue
+            if type(obj) is not cls:
+                ctx.fail("call:foreign-constructor", f"step {step}: load(_, class #{j} of {k} same-named {kind} models) returns an instance "
+                         f"of another class (order {order})", case)
+                break
+            if kind in ("namedtuple", "class", "attrs") and not py_same(obj.x, dflts[j]):
+                ctx.fail("default:omitted-field-other-value:same-shape-class", f"step {step}: omitted field of class #{j} holds {obj.x!r} "
+                         f"({type(obj.x).__name__}); its declared default is {dflts[j]!r} ({type(dflts[j]).__name__}); other same-named "
+                         f"classes in the retort declare {[repr(d) for d in dflts]}", case)
+                break
+            if kind == "class" and len(regs[j]) != before + 1:
+                ctx.fail("call:foreign-constructor", f"step {step}: the constructor of class #{j} ran {len(regs[j]) - before} times", case)
+                break
+
+
 def run(ctx: Ctx):
+    same_shape_classes_suite(ctx, ctx.budget(120, 2000))
     drv = None
     if ctx.driver_ok:
         try:
